@@ -14,7 +14,14 @@ ModelDiff(o) == IF ~HasModel(o) THEN {}
                 ELSE IF o.model.gerr # (~o.ok) THEN {"info-graph-level-error-differs-from-algorithm-model"}
                 ELSE IF o.ok /\ (o.graph.nodes # o.model.nodes \/ AsSet(o.graph.edges) # AsSet(o.model.edges)) THEN {"info-graph-differs-from-algorithm-model"}
                 ELSE {}
-LawsOK(o) == o.ok => /\ \A x \in PipViolations(o.universe, o.root, o.graph) : CSVWrite("%1$s", <<ToJson([law |-> x[1], n |-> row, k |-> x[2]])>>, RejFile)
+\* The stale-criteria deviations (recorded finding C08-F24) need a pin that was replaced in place (design-level statement
+\* PipResolve!DoneLawsNoRepin: without one, every criterion holds requirements of versions that are still pinned and
+\* reachable).  The harness reports whether the real resolution replaced a pin; the same symptom without one is not that
+\* finding and is reported under another name.
+StaleNames == {"prerelease-admitted-by-requirement-of-an-abandoned-version", "edge-from-extra-guarded-requirement-enabled-by-an-abandoned-version"}
+Repinned(o) == IF "repinned" \in DOMAIN o THEN o.repinned ELSE TRUE
+LawName(x, o) == IF x[1] \in StaleNames /\ ~Repinned(o) THEN x[1] \o "-although-no-pin-was-replaced" ELSE x[1]
+LawsOK(o) == o.ok => /\ \A x \in PipViolations(o.universe, o.root, o.graph) : CSVWrite("%1$s", <<ToJson([law |-> LawName(x, o), n |-> row, k |-> x[2]])>>, RejFile)
                      /\ \A i \in UndeclaredEdges(o.universe, o.graph) : CSVWrite("%1$s", <<ToJson([law |-> "info-undeclared-edge", n |-> row, k |-> i])>>, RejFile)
 ModelOK(o) == \A l \in ModelDiff(o) : CSVWrite("%1$s", <<ToJson([law |-> l, n |-> row, k |-> 0])>>, RejFile)
 Emit == row = 0 \/ (LawsOK(Obs[row]) /\ ModelOK(Obs[row]))
